@@ -33,8 +33,8 @@ def run(ctx, model_ok):
     ctx.cov["not_shown"] = ["orientation, field_func, style arguments: grammar oracle only",
                             "np.array(dtype=float) is an assumed external function (Model/Validators.lean header): non-integer floats, inf, strings like '1e3' that "
                             "float() parses, bytes, objects with __float__/__array__, nestings deeper than numpy's axis limit are outside the modelled grammar",
-                            "full-strength 'never a foreign error' is false of the faithful model: complex scalars (TypeError) and check_format_input_vector2 "
-                            "(ValueError) are stated as witnesses, see scalar_foreign_iff_complex / vector2_bad_shape_is_foreign"]
+                            "full-strength 'never a foreign error' is false of the faithful model for check_format_input_vector2 (ValueError, pinned by a test): "
+                            "stated as witness vector2_bad_shape_is_foreign and recorded as a known finding; complex scalars were repaired in /repo (scalar_never_foreign)"]
 
 
 def replay(ctx, payload):
